@@ -318,8 +318,7 @@ Section WithEv.
     unfold virtual_value. apply good_bind; [apply good_get_st|intros st0].
     destruct (alookup tid (c_traces (st_cont st0))) as [t|]; [|apply good_fail].
     destruct (alookup n (tr_virt t)) as [vs|]; [|apply good_fail].
-    destruct (znth (tr_ts t) (tr_index t)) as [ts|]; [|apply good_fail].
-    match goal with |- good (match ?x with _ => _ end) => destruct x end; [apply good_ret|].
+    cbv zeta. match goal with |- good (match ?x with _ => _ end) => destruct x end; [apply good_ret|].
     apply good_bind; [apply good_eval_args|intros vals]. apply good_bind; [apply good_last_or|intros v].
     intros st a st' H. binv H. injection E as <- <-.
     destruct (alookup tid (c_traces (st_cont st))) as [t2|] eqn:El; [|discriminate].
